@@ -88,6 +88,14 @@ def answerTab (fields : List String) : String :=
       if p.expandPanics then "panic"
       else s!"ok\t{" ".intercalate (patLocs p)}\t{showToks ((expand p).toks v)}"
     | _, _ => "bad-op"
+  -- expandnj <AST> <value tokens>: the same for the pattern as a stable compiler session sees it (`Span::join` fails: `Pat.noJoin`)
+  | ["expandnj", ast, value] =>
+    match (SExp.parse ast).bind readPat, (SExp.parse value).bind readToks with
+    | some p0, some v =>
+      let p := p0.noJoin
+      if p.expandPanics then "panic"
+      else s!"ok\t{" ".intercalate (patLocs p)}\t{showToks ((expand p).toks v)}"
+    | _, _ => "bad-op"
   -- frontier <AST> <value> <meanings>  ->  ok <entry>* | illtyped
   -- entry = node|location|hex(label)|hex(actual)|hex(expected) ; the specification's answer
   | ["frontier", ast, val, ms, join] =>
